@@ -93,3 +93,55 @@ func C01_opchoice() {
 func isNameByte(b byte) bool {
 	return sym.Or(sym.And(b >= 'a', b <= 'z'), sym.And(b >= 'A', b <= 'Z'), b == '_')
 }
+
+// C01_fragments: named fragments shared between operations and spread more
+// than once, defined before or after their uses, nested in each other.
+func C01_fragments() {
+	f := func(name string, sub ...*sel) *sel { return &sel{kind: selField, name: name, sub: sub} }
+	sp := func(name string) *sel { return &sel{kind: selSpread, frag: name} }
+	sh := &shape{frags: map[string]*sel{
+		"F": {kind: selInline, cond: "Query", sub: []*sel{f("a"), f("s")}},
+		"G": {kind: selInline, cond: "Obj", sub: []*sel{f("s"), {kind: selField, name: "a", alias: "z"}}},
+		"H": {kind: selInline, cond: "Query", sub: []*sel{f("o", sp("G")), f("__typename")}},
+	}}
+	ops := [][]*sel{
+		{sp("F"), f("o", sp("G"))},
+		{f("o", sp("G")), sp("F")},
+		{sp("F"), {kind: selField, name: "o", alias: "x", sub: []*sel{sp("G")}}, f("l", sp("G")), sp("H")},
+		{sp("H"), sp("F")},
+	}
+	// document layout: which operations it holds, fragments first or last, their order
+	nops := 1 + sym.Choice("operations", 3)
+	first := sym.Choice("first operation", len(ops))
+	var chosen []int
+	for k := 0; k < nops; k++ {
+		chosen = append(chosen, (first+k)%len(ops))
+	}
+	orders := [][]string{{"F", "G", "H"}, {"H", "G", "F"}, {"G", "F", "H"}}
+	sh.order = orders[sym.Choice("fragment order", len(orders))]
+	frags := ""
+	for _, name := range sh.order {
+		fr := sh.frags[name]
+		frags += " fragment " + name + " on " + fr.cond + renderSels(fr.sub)
+	}
+	body := ""
+	for _, k := range chosen {
+		body += " query Q" + string(rune('0'+k)) + renderSels(ops[k])
+	}
+	doc := body + frags
+	if sym.Choice("fragments first", 2) == 1 {
+		doc = frags + body
+	}
+	run := chosen[sym.Choice("run", len(chosen))]
+	var log []string
+	q := newGraph(&log, 1)
+	root := kitRoot(q)
+	sym.Observe("doc", doc)
+	sym.Budget(6_000_000)
+	res := root.ResolveString(doc, "Q"+string(rune('0'+run)), nil)
+	sym.Observe("res", res)
+	_, hasErr := res["errors"]
+	sym.Assert(!hasErr, "valid request has no errors")
+	want := sh.exec(q, ops[run], 0)
+	sym.Assert(sym.DeepEqual(res["data"], interface{}(want)), "data is exactly the selection")
+}
